@@ -13,5 +13,5 @@ Extraction "c10_model.ml"
   c10_div_alias c10_mod_alias c10_shr_checked c10_todouble_trace c10_hash c10_hash_combine c10_stream_insert
   c10_bits c10_bitmask c10_compbitmask c10_overflowmask c10_param_hexdigits c10_param_uintmax_digits
   c10_param_double_digits c10_param_size_t_bits c10_param_touint_bits
-  c10_run c10_spec_run
+  c10_run c10_spec_run c10_print_ios c10_print_ios_written c10_put_hex c10_spec_field c10_print_case c10_hexval_ci
   c10_spec_binop c10_spec_cmp c10_spec_shift c10_spec_width c10_spec_todouble c10_spec_sigdigits.
